@@ -45,6 +45,17 @@ def run(ctx):
                 for sep in (' ', ', ', ' + ', ' == '):
                     textcases.append(['DUMP', 't%d' % len(textcases), 'simple', vlib.esc(sep.join([lit] * k))])
                     textcases.append(['DUMP', 't%d' % len(textcases), 'basic', vlib.esc(sep.join([lit] * k))])
+        # literal texts with escapes: every escape form, and \u{…} at the edges of every range of u32 -> char (the surrogate gap
+        # D800..DFFF sits in the middle of the valid range), in char lists and byte lists, alone and inside a longer literal
+        escs = ['n', 't', 'r', '0', '\\', '"', "'", 'x', 'q', 'u', 'u{', 'u{}', 'u{-1}', 'u{+41}', 'u{41', 'u41}', 'u{{41}}', 'u{1.5}', 'u{g}', 'u{ 41 }', 'u{0_1}', 'u{016_41}']
+        for v in (0, 0x41, 0x7f, 0x80, 0xff, 0x100, 0xd7ff, 0xd800, 0xd801, 0xdbff, 0xdc00, 0xdfff, 0xe000, 0xfffe, 0xffff, 0x10000, 0x10ffff, 0x110000,
+                  0x7fffffff, 0x80000000, 0xffffffff, 0x100000000, 0xffffffffffffffff, 0x10000000000000000):
+            escs += ['u{%x}' % v, 'u{%X}' % v, 'u{%d}' % v]
+        for e in escs:
+            for q in ('"', "'", '"""', "''"):
+                for body in ('\\' + e, 'a\\' + e + 'b', '\\' + e + '\\' + e):
+                    for st in ('simple', 'basic'):
+                        textcases.append(['DUMP', 't%d' % len(textcases), st, vlib.esc(q + body + q)])
         # long inputs of regular shape for the growth fit
         for n in (200, 400, 800, 1600, 3200):
             addtext(' + '.join(['1'] * n)); addtext('(' * n + '1' + ')' * n); addtext(', '.join(['a b'] * n)); addtext('1 ?> 2 |> ' * (n // 4) + '3')
